@@ -71,7 +71,11 @@ func (g *Grammar) Methods(opt HarnessOpt) []MethodInfo {
 // the runner), the real internals.go and the stub.
 func (g *Grammar) Harness(opt HarnessOpt) (harness, internals, stub string) {
 	var sb strings.Builder
-	sb.WriteString("package PKGNAME\n\nimport \"batch/hc\"\n\n")
+	if g.WithLex {
+		sb.WriteString("package PKGNAME\n\nimport (\n\t\"batch/hc\"\n\n\t\"github.com/dcaiafa/loxlex/simplelexer\"\n)\n\n")
+	} else {
+		sb.WriteString("package PKGNAME\n\nimport \"batch/hc\"\n\n")
+	}
 	sb.WriteString("type Token = hc.Token\ntype Node = hc.Node\n\n")
 	sb.WriteString("type P struct {\n\tlox\n\tH *hc.H\n}\n\n")
 	for _, m := range g.Methods(opt) {
@@ -115,7 +119,11 @@ func (g *Grammar) Harness(opt HarnessOpt) (harness, internals, stub string) {
 		fmt.Fprintf(&sb, "%q: %s", n, n)
 	}
 	sb.WriteString("},\n\tTokStr: _TokenToString,\n")
-	sb.WriteString("\tParse: func(h *hc.H) bool {\n\t\tp := &P{H: h}\n\t\th.Tap = tap(p)\n\t\treturn p.parse(h)\n\t},\n}\n")
+	sb.WriteString("\tParse: func(h *hc.H) bool {\n\t\tp := &P{H: h}\n\t\th.Tap = tap(p)\n\t\treturn p.parse(h)\n\t},\n")
+	if g.WithLex {
+		sb.WriteString("\tLex: &hc.LexEntry{New: func() (simplelexer.StateMachine, func() hc.LexCfg) {\n\t\tsm := new(_LexerStateMachine)\n\t\treturn sm, lexTap(sm)\n\t}},\n")
+	}
+	sb.WriteString("}\n")
 
 	internals = `package PKGNAME
 
@@ -143,5 +151,32 @@ import "batch/hc"
 
 func tap(p *P) func() hc.Config { return nil }
 `
+	if g.WithLex {
+		internals += `
+func lexTap(sm *_LexerStateMachine) func() hc.LexCfg {
+	idx := func(m []uint32) int {
+		if m == nil {
+			return 0
+		}
+		for i, t := range _lexerModes {
+			if len(t) > 0 && len(m) > 0 && &t[0] == &m[0] {
+				return i
+			}
+		}
+		return -1
+	}
+	return func() hc.LexCfg {
+		c := hc.LexCfg{State: sm.state, Mode: idx(sm.mode)}
+		for _, m := range sm.modeStack {
+			c.Stack = append(c.Stack, idx(m))
+		}
+		return c
+	}
+}
+`
+		stub += `
+func lexTap(sm *_LexerStateMachine) func() hc.LexCfg { return nil }
+`
+	}
 	return sb.String(), internals, stub
 }
